@@ -36,6 +36,9 @@ def run(rep, tier):
     rep.rule("R9.3", "predicate: root_converged = res_norm().head(size_update) < tol_; result = root_converged.head(neigen).all(); "
                      "storeNotConvergedData zeroes exactly the roots with !root_converged[i] and sets NoConvergence")
     rep.rule("R9.4", "storeEigenPairs: eigenvalues = lambda.head(neigen), eigenvectors = q.leftCols(neigen), columns normalised")
+    rep.rule("R9.6", "extendProjection: the loop visits every tracked root j = 0 .. size_update-1 and appends the correction vector built from (q.col(j), lambda(j), res.col(j)) "
+                     "exactly when root j has not converged, in consecutive new columns; the space grows by the number of unconverged roots "
+                     "(necessary for 'diagonally dominant matrices converge': a tracked root that never gets a correction stagnates)")
     rep.rule("R9.5", "option tables: literals accepted by set_tolerance / set_correction / set_size_update equal the choices of the gwbse option description; every enumerator of CORR/UPDATE/MATRIX_TYPE is handled")
     host = os.path.join(front.VERIF, "hosts", "xtp_davidson.cc")
     units = [host, front.repo("xtp/src/libxtp/davidsonsolver.cc")]
@@ -131,14 +134,49 @@ def run(rep, tier):
     # ---------------------------------------------------------------- R9.3
     cc = F.one(D + "checkConvergence")
     rep.analysed(cc)
-    asg = [n for n in cc.walk() if n.get("k") == "opcall" and n.get("op") == "=" and nows(show(n["args"][0])) == "proj.root_converged"]
-    rets = [n for n in cc.walk() if n.get("k") == "return"]
-    ok = len(asg) == 1 and re.sub(r"[()]", "", nows(show(asg[0]["args"][1]))) in ("rep.res_norm.headproj.size_update<tol_",)
+    import sympy as sp
+    from vsa.alg import F as Fn
+    from vsa.cases import decide
+    fcc = Fold(cc).run()
+    rp_, pp_, ne_ = [p_["name"] for p_ in cc.j["params"][:3]]
+    asg = [e for e in fcc.events if e["kind"] == "store" and e["target"].replace(" ", "") == pp_ + ".root_converged"]
+    rets = [e for e in fcc.events if e["kind"] == "return"]
+    resn = Fn("head")(Fn("res_norm")(S(rp_)), S(pp_ + ".size_update"))
+    pred = asg[0]["value"] if len(asg) == 1 else None
+    ok = isinstance(pred, tuple) and len(pred) == 3 and not asg[0]["guards"] and ((pred[0] == "<" and pred[1] == resn and str(pred[2]) == "tol_") or (pred[0] == ">" and pred[2] == resn and str(pred[1]) == "tol_"))
     rep.check(ok, "R9.3", "root-converged", "root_converged = res_norm().head(size_update) < tol_", "checkConvergence computes root_converged as %s (must compare the residual norms with tol_ using <)" % (
-        show(asg[0]["args"][1]) if asg else "?"), cc.loc(), sample=True)
-    ok = len(rets) == 1 and nows(show(rets[0]["value"])) == "proj.root_converged.head(neigen).all()"
-    rep.check(ok, "R9.3", "all-roots", "converged iff all requested roots are converged", "checkConvergence returns %s (required root_converged.head(neigen).all())" % (
-        show(rets[0]["value"]) if rets else "?"), cc.loc(), sample=True)
+        fcc.cond_str(pred) if isinstance(pred, tuple) else pred), cc.loc(), sample=True)
+    # the result: true exactly when all of the first neigen flags are set.  The flags enter through all()/count() of head(neigen) only:
+    # representatives c = number of set flags among the first N = neigen
+    ok, got = len(rets) == 1 and not rets[0]["guards"], None
+    if ok:
+        val = rets[0]["value"]
+        got = fcc.cond_str(val) if isinstance(val, tuple) else str(val)
+
+        def leaves(v):
+            if isinstance(v, tuple):
+                for x in v:
+                    yield from leaves(x)
+            elif isinstance(v, sp.Basic):
+                yield from sp.preorder_traversal(v)
+        mine = lambda a_: len(a_.args) == 1 and str(getattr(a_.args[0], "func", "")) == "head" and len(a_.args[0].args) == 2 and str(a_.args[0].args[1]) == ne_ and "size_update" in str(a_.args[0].args[0])
+        cnt = {a_ for a_ in leaves(val) if str(getattr(a_, "func", "")) == "count" and mine(a_)}
+        N = 5
+        for c_ in (0, 1, N - 1, N):
+            def orc(lf, c_=c_):
+                if isinstance(lf, sp.Basic) and str(getattr(lf, "func", "")) == "all" and mine(lf):
+                    return ("ALL", True)
+                if isinstance(lf, sp.Basic) and str(getattr(lf, "func", "")) == "any" and mine(lf):
+                    return ("ANY", True)
+                return None
+            sub = {a_: sp.Integer(c_) for a_ in cnt}
+            sub[S(ne_)] = sp.Integer(N)
+            t = decide(val, sub, {"ALL": c_ == N, "ANY": c_ > 0}, orc)
+            if t is None or t != (c_ == N):
+                ok = False
+                got += " (with %d of the first %d roots converged it evaluates to %s)" % (c_, N, t)
+                break
+    rep.check(ok, "R9.3", "all-roots", "converged iff all requested roots are converged", "checkConvergence returns %s (required: true exactly when all of root_converged.head(neigen) are set)" % got, cc.loc(), sample=True)
     from vsa.cases import executes
     fz = Fold(snc, record_calls=r"::setZero$").run()
     zev = [e for e in fz.events if (e["kind"] == "store" and e["target"].replace(" ", "").startswith("eigenvalues_(") and e["value"] == 0)
@@ -240,5 +278,81 @@ def run(rep, tier):
                 has_default = any(x.get("k") == "default" for x in walk(sw["body"]))
                 rep.check(labels == names or has_default, "R9.5", "switch|%s|%s#%d" % (en, f.qname.split("::")[-1], n_sw), "every %s enumerator handled" % en,
                           "%s: switch over %s handles %s of %s" % (f.qname, en, sorted(labels), sorted(names)), f.loc(sw))
+    check_extend(rep, F)
     rep.assumptions += ["that returned values are the lowest eigenvalues, orthonormality, residual bounds, convergence for diagonally dominant "
                         "matrices and the Hamiltonian mode are numerical properties: not decided (most of the property)"]
+
+
+def check_extend(rep, F):
+    import sympy as sp
+    from vsa.alg import guard_strs, F as Fn
+    from vsa.cases import decide, executes, resolve_ite
+    f = F.one(D + "extendProjection")
+    rep.analysed(f)
+    fo = Fold(f, record_calls=r"computeCorrectionVector$|conservativeResize$").run()
+    conds = getattr(fo, "conds", {})
+    rp, pp = [p_["name"] for p_ in f.j["params"][:2]]
+    calls = [e for e in fo.events if e["kind"] == "call" and e["callee"].endswith("computeCorrectionVector")]
+    stores = [e for e in fo.events if e["kind"] == "store" and e.get("idx") and re.search(r"\.V\.col\(", e["target"])]
+    grow = [e for e in fo.events if e["kind"] == "call" and e["callee"].endswith("conservativeResize")]
+    ok, why = len(calls) == 1 and len(stores) == 1 and len(grow) == 1, "expected one correction call, one column store and one resize, found %d/%d/%d" % (len(calls), len(stores), len(grow))
+    if ok:
+        c, st = calls[0], stores[0]
+        lids = [g[0][1] for g in c["guards"] if isinstance(g[0], tuple) and g[0] and g[0][0] == "loop"]
+        lp = [l for l in getattr(fo, "loops", []) if lids and l["lid"] == lids[-1]]
+        ok, why = len(lp) == 1, "the correction vectors are not built in a loop over the tracked roots"
+    if ok:
+        l = lp[0]
+        # the induction variable: the loop symbol the correction arguments are indexed with
+        js = [sy for sy in l["syms"].values() if c["args"][-3:] == [Fn("col")(S(rp + ".q"), sy), Fn("at")(S(rp + ".lambda"), sy), Fn("col")(S(rp + ".res"), sy)]]
+        ok, why = len(js) == 1, "the correction vector is built from %s, not from the Ritz vector, Ritz value and residual of one and the same root" % [str(a)[:40] for a in c["args"][-3:]]
+    if ok:
+        j = js[0]
+        key = [k_ for k_, sy in l["syms"].items() if sy == j][0]
+        cond = l["cond"]
+        full = l["init"].get(key) == 0 and sp.simplify(l["step"][key] - j - 1) == 0 and isinstance(cond, tuple) and len(cond) == 3 and \
+            ((cond[0] == "<" and cond[1] == j and str(cond[2]) == pp + ".size_update") or (cond[0] == ">" and cond[2] == j and str(cond[1]) == pp + ".size_update"))
+        ok, why = full, "the loop runs from %s while %s (step %s): not over every tracked root 0 .. size_update-1 (an unconverged root outside the range never gets a correction vector and stagnates)" % (
+            l["init"].get(key), fo.cond_str(cond) if cond is not None else "?", l["step"].get(key))
+    if ok:
+        conv = Fn("at")(S(pp + ".root_converged"), j)
+
+        def orc(lf):
+            if lf == conv or str(lf) == str(conv):
+                return ("CONV", True)
+            if isinstance(lf, tuple) and len(lf) == 3 and lf[0] in ("==", "!=") and conv in lf[1:]:
+                other = [x for x in lf[1:] if x != conv]
+                if other and other[0] in (False, sp.false, 0):
+                    return ("CONV", lf[0] == "!=")
+                if other and other[0] in (True, sp.true, 1):
+                    return ("CONV", lf[0] == "==")
+            if isinstance(lf, tuple) and lf and lf[0] == "loop":
+                return ("LOOP", True)
+            return None
+        ks = [(k_, sy) for k_, sy in l["syms"].items() if sy != j and sy in getattr(st["idx"][0], "free_symbols", set())]
+        for cv in (True, False):
+            A = {"CONV": cv, "LOOP": True}
+            xc, xs = executes(c, None, A, orc, conds), executes(st, None, A, orc, conds)
+            if xc is None or xs is None:
+                ok, why = False, "cannot decide whether the correction of root j is built when root_converged[j] = %s" % cv
+                break
+            if xc != (not cv) or xs != (not cv):
+                ok, why = False, "for root_converged[j] = %s the correction vector is %sbuilt and %sappended" % (cv, "" if xc else "not ", "" if xs else "not ")
+                break
+            if len(ks) != 1:
+                ok, why = False, "the new column index %s does not advance with a counter" % st["idx"][0]
+                break
+            kk, ksym = ks[0]
+            stp = l["step"][kk]
+            stp = resolve_ite(stp, lambda cs: decide(conds[cs], None, A, orc, conds) if cs in conds else None) if hasattr(stp, "args") else stp
+            if sp.simplify(stp - ksym - (0 if cv else 1)) != 0:
+                ok, why = False, "for root_converged[j] = %s the column counter becomes %s" % (cv, stp)
+                break
+        if ok:
+            first = sp.simplify(st["idx"][0] - ksym + l["init"].get(kk))
+            gv = grow[0]["args"][-1]
+            d = sp.simplify(gv - first) if not isinstance(gv, (tuple, sp.Matrix)) else None
+            ok = not first.has(ksym) and str(first) == "cols(%s.V)" % pp and d is not None and str(getattr(d, "func", "")) == "count" and "root_converged" in str(d) and "False" in str(d)
+            base = first
+            why = "the search space is resized to %s while columns are written from %s on" % (gv, base)
+    rep.check(ok, "R9.6", "corrections", "one correction per unconverged tracked root, every tracked root visited", "DavidsonSolver::extendProjection: " + why, f.loc(), sample=True)
